@@ -1,4 +1,5 @@
 import Alpen.Model.Str
+import Alpen.Model.Walker
 /-!
 Line-protocol driver: one operation per line on stdin, one canonical answer line on
 stdout.  Strings travel as comma-separated code points (`-` = empty string).
@@ -17,6 +18,24 @@ def encStr (s : Str) : String :=
 
 def encBool (b : Bool) : String := if b then "1" else "0"
 
+def decNats (t : String) : Option (List Nat) :=
+  if t = "-" then some [] else (t.splitOn ",").mapM (·.toNat?)
+
+def encNats (l : List Nat) : String :=
+  if l.isEmpty then "-" else ",".intercalate (l.map toString)
+
+def decBool (t : String) : Option Bool :=
+  if t = "1" then some true else if t = "0" then some false else none
+
+def decInt (t : String) : Option Int := t.toInt?
+
+/-- `id:int` pairs -/
+def decPairsNI (t : String) : Option (List (Nat × Int)) :=
+  if t = "-" then some [] else
+  (t.splitOn ",").mapM (fun x => match x.splitOn ":" with
+    | [a, b] => do pure (← a.toNat?, ← b.toInt?)
+    | _ => none)
+
 def pure1 (toks : List String) : Option String :=
   match toks with
   | ["iip", s] => do
@@ -30,6 +49,15 @@ def pure1 (toks : List String) : Option String :=
   | ["canon", s] => do
       let s ← decStr s
       pure (encBool (decide (Canonical s)))
+  | ["walk", tbl, c, k] => do
+      let tbl ← decNats tbl; let c ← c.toNat?; let k ← k.toNat?
+      match walkerGet tbl c k with
+      | .valueError => pure "valueError"
+      | .doesNotExist => pure "doesNotExist"
+      | .ok items c' => pure s!"ok {encNats items} {c'}"
+  | ["avsel", now, minDays, batch] => do
+      let now ← decInt now; let md ← decInt minDays; let b ← decPairsNI batch
+      pure (encNats (autoVerifySelect now md b))
   | _ => none
 
 end Drv
